@@ -58,6 +58,15 @@ Theorem C12_enumeration_is_monadic :
 Proof. exact law_enum. Qed.
 Print Assumptions C12_enumeration_is_monadic.
 
+(* for programs given directly in the parsed form (assignments with arbitrary condition and
+   default variable, as Assignment.evaluate supports): summed over all scripts the executor
+   has the law of the monadic reading [prun] — no hypothesis *)
+Theorem C12_parsed_program_law :
+  forall (sampler : rhs -> state -> dist Qc) (p : pprog) (n : nat) (s0 : state) (f : state -> Qc),
+    E (law_of (enum_run sampler p n s0)) f = E (prun sampler p n s0) f.
+Proof. exact enum_run_law. Qed.
+Print Assumptions C12_parsed_program_law.
+
 (* first-match: an IfStatem executes exactly the first branch whose condition holds, the
    else branch when none does (and nothing when there is no else branch: PNil) *)
 Theorem C12_if_first_match :
